@@ -72,11 +72,15 @@ PROPS.update({
                       "Pyro5.svr_threads.ClientConnectionJob.denyConnection", "Pyro5.svr_multiplex.SocketServer_Multiplex.handleRequest",
                       "Pyro5.svr_multiplex.SocketServer_Multiplex._handleConnection", "Pyro5.server.Daemon._handshake", "Pyro5.protocol.recv_stub",
                       "Pyro5.server.Daemon._sendExceptionResponse#body"],
+        "groups": [{"modules": ["specs.socket_model", "specs.pystruct", "specs.seqdict", "contracts.socketutil", "contracts.protocol"],
+                    "contracts": ["Pyro5.protocol.ReceivingMessage.__init__", "Pyro5.protocol.ReceivingMessage.validate", "Pyro5.protocol.ReceivingMessage.add_payload"]}],
         "harness": "replay/dispatch.py",
         "explanation": "exception containment proved against the weakest callee contracts (handleRequest / _handshake / _clientDisconnect may raise ANY Exception): "
                        "nothing escapes the per-connection job of the thread server (so the worker always returns to the pool), the refusal path, the multiplex "
                        "per-connection handler and accept path (except ConnectionClosedError when the listening socket itself is gone); recv_stub raises only its declared "
-                       "classes on arbitrary bytes; an error reply is produced for any exception that can be reported.",
+                       "classes on arbitrary bytes; an error reply is produced for any exception that can be reported.  Second contract group (shared with C06): the message "
+                       "decoder itself - ReceivingMessage.__init__ / validate / add_payload - raises only ProtocolError (AssertionError for a tiling mismatch) on arbitrary "
+                       "header and payload bytes, whatever the length fields say.",
         "assumptions": _COMMON_ASSUME + ["liveness (a silent peer blocking a read without COMMTIMEOUT), resource exhaustion and the scheduler are outside the technique",
                                          "the accept loops SocketServer_*.events/loop around these handlers are covered by the bounded native harness only"],
     },
@@ -109,12 +113,16 @@ PROPS.update({
     "C07": {
         "modules": _DISPATCH_MODS,
         "contracts": ["Pyro5.server.Daemon._sendExceptionResponse#body", _HR],
+        "groups": [{"modules": ["specs.socket_model", "specs.pystruct", "specs.seqdict", "specs.opaque", "specs.daemon_model", "contracts.deserialize"],
+                    "contracts": ["Pyro5.serializers.SerializerBase.dict_to_class"]}],
         "harness": "replay/dispatch.py",
         "explanation": "_sendExceptionResponse: exactly one RESULT message with the exception flag, the request's sequence number and serializer is sent; its payload is "
                        "the serialised exception with the traceback attached, or - for ANY exception raised by the first dumps - the serialised fallback PyroError built "
                        "from str()/type() of the original; it fails only for an unknown serializer id, a fallback that cannot be serialised either, a raising annotations() "
                        "hook, an oversized reply or a failing send.  handleRequest: a non-oneway request is answered exactly once on every normal return (result or error "
-                       "reply carrying the request's sequence number), never silently.",
+                       "reply carrying the request's sequence number), never silently.  Second contract group (shared with C04): dict_to_class rebuilds an exception "
+                       "as the class its COMPLETE tag names - the whitelist is consulted with the whole tag, a name is resolved only in the module its namespace prefix spells "
+                       "out (Pyro5.errors / builtins / sqlite3) - so a builtin exception never comes back as a same-named Pyro class.",
         "assumptions": _COMMON_ASSUME + ["the class/args/attribute round trip through class_to_dict / dict_to_class and the serializer libraries is covered by the bounded native "
                                          "harness only (4 serializers x builtin and Pyro exception classes)"],
     },
